@@ -71,7 +71,7 @@ func Execute(t *testing.T, sc *Scenario, replay []Decision) *RunResult {
 				}
 			}
 		}()
-		synctest.Test(t, func(t *testing.T) {
+		runBubble(t, func() {
 			h := NewHistory()
 			h.SetStart(time.Now())
 			s := NewSim(sc.Seed, sc.Sched, h)
@@ -91,10 +91,10 @@ func Execute(t *testing.T, sc *Scenario, replay []Decision) *RunResult {
 			res.Stalls = s.stalls
 			res.Diverge = s.Diverge
 			res.Virtual = s.Now()
+			h.Freeze() // what follows (post-run oracle work, teardown) is not part of the run
 			if p != nil && p.Post != nil {
 				p.Post(w)
 			}
-			h.Freeze()
 			w.dead.Store(true)
 			w.Teardown()
 			// let every sleeping harness goroutine and every repo timer run out,
